@@ -221,6 +221,8 @@ def run_property(pm, tier="quick", seed=0, update_baseline=False):
                     rep.violations.append((e["id"], rp, True))
                 elif e.get("status") == "fault":
                     rep.faults.append(f"{e['id']}: {e.get('detail')}")
+                elif e.get("status") == "undecided":
+                    rep.undecided.append((e["id"], e.get("detail", "")))  # the side condition of a proof no longer holds syntactically: not a violation
         except Exception as e:  # noqa
             rep.faults.append(f"extra check {fn.__name__}: {type(e).__name__}: {e}\n{traceback.format_exc()[-600:]}")
     for fn in getattr(pm, "BOUNDED", []):
